@@ -16,6 +16,7 @@ import Goat.Driver.Reload
 import Goat.Driver.Incr
 import Goat.Driver.Host
 import Goat.Driver.Backtrace
+import Goat.Driver.MiniGo
 /-! goatmodel: one operation per input line, one canonical output line per operation. -/
 open Goat.Driver
 
@@ -35,6 +36,7 @@ def step (st : DriverState) (line : String) : DriverState × String :=
   | "tsort" :: args => (st, tsortCmd args)
   | "opt" :: args => (st, optCmd args)
   | "str" :: args => (st, strCmd args)
+  | "mini" :: args => (st, miniCmd args)
   | "bt" :: args => (st, btCmd args)
   | "host" :: args => (st, hostCmd false args)
   | "hostfunc" :: args => (st, hostCmd true args)
